@@ -2,12 +2,19 @@
    Statements only; proofs in Proofs/CallLifeP.v.  The model (Model/CallLife.v) is the life of one call above
    the balancer; every sink below the timeout sink, every connection, server and the server set are an
    arbitrary environment (labels Push / Pop), so each theorem holds "whatever the servers, the connections
-   and the server set do".  Time is in integer ticks; r > 0 is the timer queue's resolution. *)
+   and the server set do".  Time is in integer ticks; r > 0 is the timer queue's resolution.
+   A call issued while the client is still opening ("waited" call) is chained behind the open result AND
+   bounded by a timer of its own that DispatchMethodCall arms at the call's deadline (label OFire).  When the
+   open result completes that outer timer is cancelled and the call is dispatched - from then on the timeout
+   sink's own timer bounds it like any other call - unless the outer timer already completed it, in which
+   case it is not dispatched at all.  The caller's result is completed by whichever comes first, each guarded
+   by ready().  All theorems below cover both kinds of call: there is no "issued on an open client"
+   hypothesis any more. *)
 From Scales Require Import Model.Base Model.CallLife Proofs.CallLifeP.
 Local Open Scope Z_scope.
 
 (* The caller's result is completed at most once, for every sequence of labels (fine-grained: any number of
-   replies, faults, duplicates, partial drains, timer firings, in any order). *)
+   replies, faults, duplicates, partial drains, inner and outer timer firings, in any order). *)
 Theorem C01_at_most_once : forall r t ls s, 0 < r ->
   run r (init t) ls = Some s -> (length (done s) <= 1)%nat.
 Proof. exact at_most_once. Qed.
@@ -22,7 +29,8 @@ Proof.
 Qed.
 Print Assumptions C01_late_arrivals_inert.
 
-(* TimeoutError is never delivered before t0 + T (whichever path produced it). *)
+(* TimeoutError is never delivered before t0 + T (whichever path produced it: the timeout sink's timer, its
+   expired-on-entry path, a transport's own timeout, or DispatchMethodCall's outer timer). *)
 Theorem C01_timeout_not_early : forall r t ls s tc, 0 < r ->
   run r (init t) ls = Some s -> In (tc, MTimeout) (done s) -> t0 s + tmo s <= tc.
 Proof. exact timeout_not_early. Qed.
@@ -36,49 +44,72 @@ Proof.
 Qed.
 Print Assumptions C01_timer_fires_after_deadline.
 
-(* Deadline, for calls issued on an open client, when responses are drained completely (no sink raises or
-   swallows a response): once the clock has reached the rounded deadline and the timer queue has no due action
-   left for this call, the call has completed - whatever else happened. *)
-Theorem C01_deadline_partial : forall r t cs s, 0 < r -> opened_only cs ->
-  crun r (init t) cs = Some s -> ph s = Live ->
-  ceil_r r (t0 s + tmo s) <= now s -> fire_enabled s = false -> done s <> [].
+(* Deadline, for every issued call (on an open client or before the open completed), when responses are
+   drained completely (no sink raises or swallows a response): once the clock has reached the rounded deadline
+   and the timer queue has no due action left for this call (neither the timeout sink's timer nor
+   DispatchMethodCall's), the call has completed - whatever else happened. *)
+Theorem C01_deadline : forall r t cs s, 0 < r ->
+  crun r (init t) cs = Some s -> ph s <> NotIssued ->
+  ceil_r r (t0 s + tmo s) <= now s -> fire_enabled s = false -> ofire_enabled s = false -> done s <> [].
 Proof. exact deadline_met. Qed.
-Print Assumptions C01_deadline_partial.
+Print Assumptions C01_deadline.
 
 (* ... and if the timer queue serves due actions before the clock moves on (C10), every completion time is
    at most t0 + T rounded up to the resolution. *)
-Theorem C01_completes_by_rounded_deadline_partial : forall r t cs s tc m, 0 < r -> opened_only cs ->
+Theorem C01_completes_by_rounded_deadline : forall r t cs s tc m, 0 < r ->
   prompt r (init t) cs -> crun r (init t) cs = Some s -> In (tc, m) (done s) -> tc <= ceil_r r (t0 s + tmo s).
 Proof. exact completes_on_time. Qed.
-Print Assumptions C01_completes_by_rounded_deadline_partial.
+Print Assumptions C01_completes_by_rounded_deadline.
+
+(* A call that already timed out while it waited for Open() is not dispatched when Open() completes: no frame
+   is pushed, no timer is armed, the caller's result is untouched. *)
+Theorem C01_no_dispatch_after_open_timeout : forall r t ls s s', 0 < r ->
+  run r (init t) ls = Some s -> ph s = WaitOpen -> done s <> [] -> step r s OpenDone = Some s' ->
+  stack s' = [] /\ tmr s' = TNone /\ done s' = done s.
+Proof. intros r t ls s s' _ _ P D H. exact (opendone_no_dispatch r s s' P D H). Qed.
+Print Assumptions C01_no_dispatch_after_open_timeout.
 
 (* Coarse runs are runs of the fine-grained model, so the first four theorems apply to them as well. *)
 Theorem C01_coarse_refines_fine : forall r cs s s', crun r s cs = Some s' -> run r s (expand_all r s cs) = Some s'.
 Proof. exact crun_refines. Qed.
 Print Assumptions C01_coarse_refines_fine.
 
-(* The full statement (without "issued on an open client") is FALSE of the faithful model, as it is of the
-   code: a call issued while the client is still opening is chained behind the open result with no timer
-   (dispatch.py DispatchMethodCall), so it is not bounded by t0 + T.  Witness: T = 2 issued at 0 before the
-   open completes, clock at 100: still not completed, nothing due.  Replayed on the implementation this is
-   known finding C01/late-completion/issued-before-open. *)
-Theorem C01_deadline_refuted : exists cs s,
-  crun 1 (init 0) cs = Some s /\ ph s <> NotIssued /\ ceil_r 1 (t0 s + tmo s) <= now s /\
-  fire_enabled s = false /\ done s = [].
+(* The call issued before the client finished opening is now bounded because DispatchMethodCall arms a timer
+   of its own.  T = 2 issued at 0 before the open completes: the outer timer completes the caller at 2; when
+   the open completes at 100 the call is not dispatched (empty stack, no timer) and nothing changes for the
+   caller.  The trace is prompt, and the hypotheses of C01_deadline hold in its final state. *)
+Example C01_example_issued_before_open :
+  exists s, crun 1 (init 0) [CIssue 2 false; CTick 2; COFire; CTick 100; COpenDone] = Some s
+            /\ done s = [(2, MTimeout)] /\ otmr s = TFired /\ ph s = Live /\ stack s = [] /\ tmr s = TNone
+            /\ fire_enabled s = false /\ ofire_enabled s = false
+            /\ prompt 1 (init 0) [CIssue 2 false; CTick 2; COFire; CTick 100; COpenDone].
 Proof.
-  exists [CIssue 2 false; CTick 100]. eexists. split; [vm_compute; reflexivity|].
-  repeat split; vm_compute; congruence.
+  eexists. split; [vm_compute; reflexivity|]. repeat (split; [reflexivity|]).
+  vm_compute. intuition discriminate.
 Qed.
-Print Assumptions C01_deadline_refuted.
+(* ... and one where the open completes first (cancelling the outer timer and dispatching the call) and the
+   timeout sink's timer fires: the inner result completes the caller at the deadline. *)
+Example C01_example_open_then_timeout :
+  exists s1 s, crun 1 (init 0) [CIssue 8 false; CTick 3; COpenDone] = Some s1
+            /\ otmr s1 = TCancelled /\ tmr s1 = TArmed 8 /\ stack s1 = [FTimeout; FResp]
+            /\ crun 1 s1 [CPush; CTick 8; CFire] = Some s
+            /\ done s = [(8, MTimeout)] /\ tmr s = TFired /\ otmr s = TCancelled /\ stack s = []
+            /\ prompt 1 (init 0) [CIssue 8 false; CTick 3; COpenDone; CPush; CTick 8; CFire].
+Proof.
+  eexists. eexists. split; [vm_compute; reflexivity|]. do 3 (split; [reflexivity|]).
+  split; [vm_compute; reflexivity|]. do 4 (split; [reflexivity|]).
+  vm_compute. intuition discriminate.
+Qed.
 
 (* Non-vacuity: a call that times out through the timer with two lower frames on its stack, then gets a late
    reply; and one that completes with a value first. *)
 Example C01_example_timeout :
   exists s, crun 4 (init 10) [CIssue 7 true; CPush; CPush; CTick 20; CFire; CDrain MValue; CTick 30] = Some s
-            /\ done s = [(20, MTimeout)] /\ opened_only [CIssue 7 true; CPush; CPush; CTick 20; CFire; CDrain MValue; CTick 30].
+            /\ done s = [(20, MTimeout)]
+            /\ prompt 4 (init 10) [CIssue 7 true; CPush; CPush; CTick 20; CFire; CDrain MValue; CTick 30].
 Proof.
   eexists. split; [vm_compute; reflexivity|]. split; [reflexivity|].
-  intros c H. cbn in H. repeat (destruct H as [H|H]; [subst c; split; [intros T; discriminate|discriminate]|]). contradiction.
+  vm_compute. intuition discriminate.
 Qed.
 Example C01_example_value :
   exists s, crun 1 (init 0) [CIssue 5 true; CPush; CTick 3; CDrain MValue; CTick 9] = Some s
